@@ -60,7 +60,7 @@ def unload(path, name):
 # ---- (a)+(b): chains -------------------------------------------------------------------------------
 
 def strat_chain(tier):
-    level = st.fixed_dictionaries({"pre_block": st.booleans(), "how": st.sampled_from(["yield", "yield", "yield_tuple", "sync"]), "nosource": st.sampled_from([False, False, False, True]),
+    level = st.fixed_dictionaries({"pre_block": st.booleans(), "how": st.sampled_from(["yield", "yield", "yield_tuple", "sync", "made"]), "nosource": st.sampled_from([False, False, False, True]),
                                    "handler": st.sampled_from(["none", "none", "none", "reraise", "catch"]), "post_block": st.booleans()})
     maxd = 8 if tier == "quick" else 40
     return st.fixed_dictionaries({"levels": st.lists(level, min_size=1, max_size=maxd), "raise_at": st.integers(0, maxd), "raise_via_helper": st.booleans(),
@@ -107,7 +107,10 @@ def chain_source(case):
             src.append("")
             continue
         nxt = "lvl_%02d_" % (i + 1)
-        call = {"yield": "v = yield %s.asynq()" % nxt, "yield_tuple": "v = yield (%s.asynq(), None)" % nxt, "sync": "v = %s()" % nxt}[lv["how"]]
+        call = {"yield": "v = yield %s.asynq()" % nxt, "yield_tuple": "v = yield (%s.asynq(), None)" % nxt, "sync": "v = %s()" % nxt, "made": "v = yield t"}[lv["how"]]
+        if lv["how"] == "made":
+            # the next level's task is created by a helper task that has finished by the time the next level runs
+            src.append("    t = yield mk_%02d_.asynq()" % i)
         if lv["handler"] == "none":
             src.append("    " + call + "  # CALL")
         else:
@@ -119,6 +122,9 @@ def chain_source(case):
             src.append("    yield DebugBatchItem('c18p', %d)" % i)
         src.append("    return v")
         src.append("")
+    for i, lv in enumerate(levels):
+        if lv["how"] == "made" and i < r:
+            src += ["@A()", "def mk_%02d_():" % i, "    if 0: yield", "    return lvl_%02d_.asynq()" % (i + 1), ""]
     src.append("for _ns, _nm in NOSOURCE_FIXUPS:")
     src.append("    _ns[_nm] = globals()[_nm]")
     return "\n".join(src) + "\n", r
@@ -178,7 +184,12 @@ def check_chain(case, ctx):
         # (b) the asynq stack seen inside each level that ran
         reached = r if catcher < 0 or True else r
         for i, stack in sorted(mod.STACKS.items()):
-            if stack is None or len(stack) != i + 1 or any(("lvl_%02d_" % j) not in stack[j] for j in range(i + 1)):
+            want_stack = []
+            for j in range(i + 1):
+                want_stack.append("lvl_%02d_" % j)
+                if j < i and levels[j]["how"] == "made":
+                    want_stack.append("mk_%02d_" % j)
+            if stack is None or len(stack) != len(want_stack) or any(nm not in stack[j] for j, nm in enumerate(want_stack)):
                 viol.append(("C18.stack", "%s: format_asynq_stack() inside level %d returned %r, expected that task and each task that created it, outermost first" % (desc, i, stack)))
                 break
         if sorted(mod.STACKS) != list(range(r + 1)):
@@ -187,6 +198,7 @@ def check_chain(case, ctx):
         ctx.label("crosses>=2-levels", r >= 1 and catcher < 0)
         ctx.label("reraise-on-path", any(levels[i]["handler"] == "reraise" for i in range(r)))
         ctx.label("caught", catcher >= 0)
+        ctx.label("task-created-by-a-finished-helper-on-path", any(levels[i]["how"] == "made" for i in range(r)))
         ctx.label("sync-call-on-path", any(levels[i]["how"] == "sync" for i in range(r)))
         ctx.label("level-without-source", any(levels[i].get("nosource") for i in range(r)))
         ctx.nontrivial(case, r >= 1 and catcher < 0)
@@ -309,11 +321,14 @@ def reduce_filter(case):
 
 # ---- (d) totality -----------------------------------------------------------------------------------
 
-OBJECTS = ["future_pending", "future_ok", "future_err", "const", "errfut", "task_unstarted", "task_blocked", "task_done", "task_failed", "task_self_value",
+OBJECTS = ["future_pending", "future_ok", "future_err", "const", "errfut", "task_unstarted", "task_blocked", "task_blocked_deep", "scheduler_running_deep", "task_done", "task_failed", "task_self_value",
            "batch_pending", "batch_flushed", "batch_cancelled", "item_pending", "item_done", "item_err", "debug_batch", "debug_item", "scheduler_idle",
            "scheduler_running", "scoped_value", "scoped_value_tuple", "scoped_value_empty_tuple", "override_ctx", "override_ctx_tuple", "attr_override_ctx", "attr_override_ctx_tuple", "asyncgen_fresh", "asyncgen_mid", "asyncgen_stopped", "decorated_fn",
            "bound_method", "pure_fn", "proxy_fn", "dedupe_fn", "nonasync_ctx", "async_timer"]
 RENDER = ["str", "repr", "debug.str", "debug.repr", "dump0", "dump3", "dump50"]
+
+
+DEEP = 1500        # more awaiting levels than the interpreter's recursion limit
 
 
 def total_cases(tier):
@@ -375,8 +390,18 @@ def make_object(kind):
         return t
     if kind == "task_self_value":
         t = blocker.asynq(3); t.set_value(t); return t
-    if kind in ("task_blocked", "scheduler_running"):
+    if kind in ("task_blocked", "scheduler_running", "task_blocked_deep", "scheduler_running_deep"):
         out = {}
+        deep = kind.endswith("_deep")
+
+        @A()
+        def chain(n):
+            # a task blocked on a task blocked on ... (DEEP levels) ... blocked on a batch item
+            if n == 0:
+                v = yield engine.HItem(env, "a", 5, "ok", 5)
+            else:
+                v = yield chain.asynq(n - 1)
+            return v
 
         @A()
         def observer():
@@ -387,7 +412,7 @@ def make_object(kind):
 
         @A()
         def parent():
-            c = blocker.asynq(5)
+            c = chain.asynq(DEEP) if deep else blocker.asynq(5)
             box["child"] = c
             o = probe.asynq(c)
             yield [c, o]
@@ -395,7 +420,7 @@ def make_object(kind):
         @A()
         def probe(c):
             # runs while ``c`` (started before us) is blocked on its batch item
-            box["render"](c if kind == "task_blocked" else asynq.scheduler.get_scheduler())
+            box["render"](c if kind.startswith("task_blocked") else asynq.scheduler.get_scheduler())
             return None
             yield
         box["deferred"] = parent
